@@ -127,6 +127,10 @@ def build(ev):
         m = Message('note_on', note=1)
         vars(m)['time'] = ev[1]
         return m
+    if k == 'bad_on':
+        m = build(ev[1])
+        vars(m)['time'] = ev[2]
+        return m
     raise ValueError(k)
 
 
@@ -202,7 +206,10 @@ class FileStore(BaseEngine):
                 tr.extend([['eot', pick(rng, SMALL_DELTAS)], ['eot', pick(rng, SMALL_DELTAS)]])
             tracks.append(tr)
         plan = {'prop': prop, 'cfg': cfg, 'type': ftype, 'tpb': pick(rng, (1, 96, 480, 960, 32767)),
-                'tracks': tracks, 'via': pick(rng, ('file', 'filename'))}
+                'tracks': tracks, 'via': pick(rng, ('file', 'filename')),
+                'saves': pick(rng, (1, 1, 1, 2, 3)),
+                'prelude': [pick(rng, ('utf-8', 'utf-16', 'cp1252', 'latin1')) for _ in range(rng.randint(1, 2))]
+                if rng.random() < 0.2 else []}
         if cfg == 'alt_image':
             plan['tracks'] = []
             plan['alt'] = self._gen_alt(rng)
@@ -216,10 +223,14 @@ class FileStore(BaseEngine):
             pos = rng.randint(0, len(tracks[tgt]))
             if kind == 'rt':
                 tracks[tgt].insert(pos, ['rt', pick(rng, RT), pick(rng, SMALL_DELTAS)])
-            elif kind == 'negative':
-                tracks[tgt].insert(pos, ['badtime', -pick(rng, (1, 2, 128))])
-            elif kind == 'float':
-                tracks[tgt].insert(pos, ['badtime', pick(rng, (0.5, 1.0, 1e-9, 3.0))])
+            elif kind in ('negative', 'float'):
+                val = -pick(rng, (1, 2, 4, 128)) if kind == 'negative' else pick(rng, (0.5, 1.0, 1e-9, 3.0))
+                if tracks[tgt] and rng.random() < 0.6:
+                    # the bad time sits on an existing event of any kind (meta, sysex, end_of_track ...)
+                    j = rng.randrange(len(tracks[tgt]))
+                    tracks[tgt][j] = ['bad_on', tracks[tgt][j], val]
+                else:
+                    tracks[tgt].insert(pos, ['badtime', val])
             elif kind == 'type0':
                 plan['type'] = 0
                 if len(tracks) == 1:
@@ -409,10 +420,22 @@ class FileStore(BaseEngine):
 
     def _roundtrip(self, plan, log, stats, cov):
         disk = simdisk.SimDisk()
+        for cs in plan.get('prelude', []):
+            # other files with the same content were saved earlier in this process under another charset
+            try:
+                other = self._mk(plan)
+                other.charset = cs
+                self._save(other, 'file', disk, name='other.mid')
+                stats['fault:earlier_save_other_charset'] += 1
+            except Exception:
+                pass
         mf = self._mk(plan)
-        model = [normalise(list(tr)) for tr in mf.tracks]
+        model = [normalise([m.copy() for m in tr]) for tr in mf.tracks]
         try:
-            image = self._save(mf, plan['via'], disk)
+            for _ in range(max(1, plan.get('saves', 1))):
+                image = self._save(mf, plan['via'], disk)
+            if plan.get('saves', 1) > 1:
+                stats['probe:same_object_saved_again'] += 1
         except Exception as e:
             raise Violation(f'roundtrip:save-raised:{type(e).__name__}',
                             f'saving storable content raised {type(e).__name__}: {e}')
@@ -615,6 +638,10 @@ class FileStore(BaseEngine):
             yield from shrink_list_at(plan, ('tracks', i))
         if plan['via'] != 'file':
             yield replace_at(plan, ('via',), 'file')
+        if plan.get('prelude'):
+            yield replace_at(plan, ('prelude',), [])
+        if plan.get('saves', 1) > 1:
+            yield replace_at(plan, ('saves',), plan['saves'] - 1)
         if plan['tpb'] != 480:
             yield replace_at(plan, ('tpb',), 480)
         for i, tr in enumerate(plan['tracks']):
@@ -660,7 +687,7 @@ class FileStore(BaseEngine):
     def probe_names(self, prop):
         return ['running_status_emitted', 'running_status_broken_by_meta', 'vlq_3_bytes', 'vlq_4_bytes',
                 'payload_len_128', 'eot_folded_into_next', 'mutation_still_loads', 'mutation_changes_content',
-                'alt_encoding_image_loaded', 'alt_running_status', 'alt_padded_vlq']
+                'alt_encoding_image_loaded', 'alt_running_status', 'alt_padded_vlq', 'same_object_saved_again']
 
 
 ENGINE = FileStore()
